@@ -20,6 +20,12 @@ Section Split.
     - destruct q as [|d q]; cbn in H; [discriminate|]. apply IH in H. exact H.
   Qed.
 
+  Lemma drop_drop : forall a (q : str) b, drop a (drop b q) = drop (b + a) q.
+  Proof.
+    intros a q b. revert q. induction b as [|b IH]; intros q; [reflexivity|].
+    destruct q as [|d q]; cbn [drop plus]; [destruct a; reflexivity|apply IH].
+  Qed.
+
   Lemma snext_wf it c it1 :
     wf it -> snext it = Some (c, it1) -> wf it1 /\ sidx it1 = S (sidx it) /\ nth_error p (sidx it) = Some c.
   Proof.
@@ -46,16 +52,24 @@ Section Split.
       + inversion H; subst; exact G.
   Qed.
 
+  Lemma s_posix_good it : wf it -> good (sidx it) (s_posix it).
+  Proof.
+    intros W. unfold s_posix. destruct (posix_find Posix.table_u (srest it)) as [[txt n]|].
+    - split; [|cbn; lia]. unfold wf. cbn [srest sidx]. rewrite W. apply drop_drop.
+    - split; [exact W|lia].
+  Qed.
+
   Lemma s_seq_loop_good : forall fuel c it it',
     wf it -> s_seq_loop fuel cf c it = Some it' -> good (sidx it) it'.
   Proof.
     induction fuel as [|f IH]; intros c it it' W H; [discriminate|].
     cbn [s_seq_loop] in H.
     destruct (N.eqb c cRB). { inversion H; subst. split; [exact W|lia]. }
-    set (after := if N.eqb c cBS then match s_references cf it true with Some (inl it1) => Some it1 | _ => None end
+    set (after := if N.eqb c cLB then Some (s_posix it)
+                  else if N.eqb c cBS then match s_references cf it true with Some (inl it1) => Some it1 | _ => None end
                   else if N.eqb c cSL then (if s_pathname cf then None else Some it) else Some it) in H.
     assert (GA : forall a, after = Some a -> good (sidx it) a).
-    { intros a Ha. unfold after in Ha. destruct (N.eqb c cBS).
+    { intros a Ha. unfold after in Ha. destruct (N.eqb c cLB); [inversion Ha; subst; apply s_posix_good; exact W|]. destruct (N.eqb c cBS).
       - destruct (s_references cf it true) as [[it1|]|] eqn:R; try discriminate. inversion Ha; subst.
         eapply s_references_good; eauto.
       - destruct (N.eqb c cSL).
@@ -72,18 +86,22 @@ Section Split.
     intros W H. unfold s_sequence in H.
     destruct (snext it) as [[c0 it0]|] eqn:E0; [|discriminate].
     destruct (snext_wf _ _ _ W E0) as [W0 [S0 _]].
-    assert (G1 : forall c1 it1, (if N.eqb c0 cEX then snext it0 else Some (c0, it0)) = Some (c1, it1) -> good (sidx it) it1).
-    { intros c1 it1 H1. destruct (N.eqb c0 cEX).
+    assert (G1 : forall c1 it1, (if N.eqb c0 cEX || N.eqb c0 cHAT then snext it0 else Some (c0, it0)) = Some (c1, it1) -> good (sidx it) it1).
+    { intros c1 it1 H1. destruct (N.eqb c0 cEX || N.eqb c0 cHAT).
       - destruct (snext_wf _ _ _ W0 H1) as [W1 [S1 _]]. split; [exact W1|lia].
       - inversion H1; subst. split; [exact W0|lia]. }
-    destruct (if N.eqb c0 cEX then snext it0 else Some (c0, it0)) as [[c1 it1]|]; [|discriminate].
+    destruct (if N.eqb c0 cEX || N.eqb c0 cHAT then snext it0 else Some (c0, it0)) as [[c1 it1]|]; [|discriminate].
     destruct (G1 c1 it1 eq_refl) as [W1 L1].
-    assert (G2 : forall c2 it2, (if N.eqb c1 cHAT || N.eqb c1 cMINUS || N.eqb c1 cLB then snext it1 else Some (c1, it1)) = Some (c2, it2) ->
+    assert (G2 : forall c2 it2, (if N.eqb c1 cLB then snext (s_posix it1)
+                                 else if N.eqb c1 cMINUS || N.eqb c1 cRB then snext it1 else Some (c1, it1)) = Some (c2, it2) ->
                                 good (sidx it) it2).
-    { intros c2 it2 H2. destruct (N.eqb c1 cHAT || N.eqb c1 cMINUS || N.eqb c1 cLB).
-      - destruct (snext_wf _ _ _ W1 H2) as [W2 [S2 _]]. split; [exact W2|lia].
-      - inversion H2; subst. split; [exact W1|lia]. }
-    destruct (if N.eqb c1 cHAT || N.eqb c1 cMINUS || N.eqb c1 cLB then snext it1 else Some (c1, it1)) as [[c2 it2]|]; [|discriminate].
+    { intros c2 it2 H2. destruct (N.eqb c1 cLB).
+      - destruct (s_posix_good it1 W1) as [Wp Lp]. destruct (snext_wf _ _ _ Wp H2) as [W2 [S2 _]]. split; [exact W2|lia].
+      - destruct (N.eqb c1 cMINUS || N.eqb c1 cRB).
+        + destruct (snext_wf _ _ _ W1 H2) as [W2 [S2 _]]. split; [exact W2|lia].
+        + inversion H2; subst. split; [exact W1|lia]. }
+    destruct (if N.eqb c1 cLB then snext (s_posix it1)
+              else if N.eqb c1 cMINUS || N.eqb c1 cRB then snext it1 else Some (c1, it1)) as [[c2 it2]|]; [|discriminate].
     destruct (G2 c2 it2 eq_refl) as [W2 L2].
     apply s_seq_loop_good in H; [|exact W2]. eapply good_weaken; [exact H|lia].
   Qed.
@@ -130,8 +148,8 @@ Section Split.
              ++ eapply GO; [exact Wn|exact Wb|exact Ln|exact Lb|exact H].
           -- destruct (N.eqb c cLB).
              ++ destruct (s_sequence cf itn) as [it2|] eqn:Sq.
-                ** destruct (s_sequence_good _ _ Wn Sq) as [W2 L2]. eapply GO; [exact W2|exact Wn| |exact Ln|exact H]. lia.
-                ** eapply GO; [exact Wn|exact Wn|exact Ln|exact Ln|exact H].
+                ** destruct (s_sequence_good _ _ Wn Sq) as [W2 L2]. eapply GO; [exact W2|exact Wb| |exact Lb|exact H]. lia.
+                ** eapply GO; [exact Wn|exact Wb|exact Ln|exact Lb|exact H].
              ++ eapply GO; [exact Wn|exact Wb|exact Ln|exact Lb|exact H].
   Qed.
 
@@ -202,12 +220,6 @@ Section Split.
     induction s as [|s IH]; intros q k; [reflexivity|]. destruct q as [|d q]; cbn [drop].
     - destruct k; reflexivity.
     - apply IH.
-  Qed.
-
-  Lemma drop_drop : forall a (q : str) b, drop a (drop b q) = drop (b + a) q.
-  Proof.
-    intros a q b. revert q. induction b as [|b IH]; intros q; [reflexivity|].
-    destruct q as [|d q]; cbn [drop plus]; [destruct a; reflexivity|apply IH].
   Qed.
 
   Lemma join_with_cons (sep a : str) (l : list str) : l <> [] -> join_with sep (a :: l) = a ++ sep ++ join_with sep l.
